@@ -332,28 +332,27 @@ Print Assumptions cvt_range_tests_are_saturation.
 
 (** binary64 arithmetic and the conversions that read or write a register pair
     ([frows64]: v_cvt_f64_i32, v_cvt_f32_f64, v_cvt_f64_f32, v_add_f64,
-    v_mul_f64, both ALUs); [fmodes_of] says how each operand is read. *)
+    v_mul_f64, both ALUs; v_cvt_f64_u32 on CDNA3); [fmodes_of] says how each operand is read. *)
 Theorem impl_eq_spec_float64 : forall a st i,
-  In (i_fmt i, i_op i) frows64 -> wf st -> 0 <= i_lit i < W32 ->
+  In (i_fmt i, i_op i) (frows64 a) -> wf st -> 0 <= i_lit i < W32 ->
   (forall d r, vdesc_f a (i_fmt i) (i_op i) = Some d -> vrow_f a (i_fmt i) (i_op i) = Some r ->
      let '(m0, m1, m2) := fmodes_of (i_fmt i) (i_op i) in vadm64 m0 m1 m2 d r i) ->
   agree_vf a st i.
 Proof. exact float_agree64. Qed.
 Print Assumptions impl_eq_spec_float64.
 
-(** CDNA3 v_cvt_f64_u32 writes only the low dword of its binary64 result (the
-    decode table declares a 32-bit destination).  Full-strength statement: the
-    row (VOP1, 22) agrees like the rows of [frows64]; refuted by the witness;
-    what holds is that the dword that is written is the low dword of the
-    manual's result (the high dword keeps its old content). *)
-Theorem cvt_f64_u32_refuted : exists st i,
-  i_fmt i = F_VOP1 /\ i_op i = 22 /\ wf st /\ ~ agree_vf CDNA3 st i.
-Proof. exists (fst0 0), cvt_f64_u32_witness. exact c_cvt_f64_u32. Qed.
-Print Assumptions cvt_f64_u32_refuted.
-Theorem cvt_f64_u32_partial : forall d r, vdesc_f CDNA3 F_VOP1 22 = Some d -> vrow_f CDNA3 F_VOP1 22 = Some r ->
-  forall a b c cin, exists v, fst (vd_f d a b c cin) = Some v /\ u32 v = r_val r (u32 a) b c cin mod W32.
-Proof. exact c_cvt_f64_u32_low. Qed.
-Print Assumptions cvt_f64_u32_partial.
+(** CDNA3 v_cvt_f64_u32 is an ordinary row of [frows64 CDNA3] since the repair of
+    the decode table (DSTWidth 64).  Before the repair WriteOperand stored only
+    the low dword: the old descriptor leaves the high dword of the destination
+    pair untouched (0 here), the manual and the repaired handler write
+    0x41d00000 = high dword of 1065353217.0. *)
+Example cvt_f64_u32_refuted_before_fix :
+  match run_d vd_cvt_f64_u32_before_fix (fst0 0) cvt_f64_u32_witness, exec_spec_vf CDNA3 (fst0 0) cvt_f64_u32_witness,
+        exec_vector_f CDNA3 (fst0 0) cvt_f64_u32_witness with
+  | Some s1, Some s2, Some s3 => vgpr s1 0 4 = 0 /\ vgpr s2 0 4 = 1104134144 /\ vgpr s3 0 4 = 1104134144
+  | _, _, _ => False
+  end.
+Proof. exact c_cvt_f64_u32_before_fix. Qed.
 
 (** The integer theorems are statements about the complete model as well. *)
 Theorem complete_model_on_integer_rows : forall a st i,
